@@ -872,6 +872,11 @@ def attribute_list_case(ctx, rng):
         return
     ctx.count("attribute_lists_parsed")
     want = [want_of(data), ';'] if as_seq else want_of(data)
+    try:
+        scribble(_ATTR_PARSER[1 if as_seq else 0].parse(text))      # (a second result of the same text, written into)
+        ctx.count("results_the_caller_wrote_into")
+    except Exception:
+        pass
     if as_seq and isinstance(got, list) and got and isinstance(got[0], list):
         def unwrapped(x):
             while isinstance(x, list) and len(x) == 1:
@@ -883,6 +888,21 @@ def attribute_list_case(ctx, rng):
 
 
 _TWICE_PARSER = {}
+
+
+def scribble(x, depth=0):
+    """the caller works on the result it was given: it appends to every list in it (a result belongs to its caller;
+    what later parses give is none of its business)"""
+    if isinstance(x, TElement):
+        x = x.value
+    if isinstance(x, list) and depth < 6:
+        for item in list(x):
+            scribble(item, depth + 1)
+        x.append("<the caller's own entry>")
+    elif isinstance(x, dict) and depth < 6:
+        for item in list(x.values()):
+            scribble(item, depth + 1)
+        x["<the caller's own key>"] = 1
 
 
 def twice_case(ctx, rng):
@@ -958,6 +978,13 @@ def twice_case(ctx, rng):
     ctx.count("productions_with_two_optional_lists_parsed")
     if got != want:
         ctx.violation("value-differs-from-data", {"got": repr(got)[:300], "expected": repr(want)[:300]}, case)
+        return
+    # (the same text parsed once more: that result goes to a caller who writes into it)
+    try:
+        scribble(_TWICE_PARSER[key].parse(text))
+        ctx.count("results_the_caller_wrote_into")
+    except Exception as err:
+        ctx.violation("valid-text-rejected", {"type": type(err).__name__, "msg": str(err)[:200], "second_parse": True}, case)
 
 
 FAMILIES = {"twice": lambda ctx, rng: twice_case(ctx, rng),
